@@ -377,46 +377,46 @@ class Inventory:
                 return None
             a, b = fmt.split('%s')
             return [(a, v, b) if isinstance(v, Opaque) else (a + v + b,) for v in alts]
-        var = a0.right.id
+        def reaching(use: ast.AST, var: str):
+            """The single assignment to `var` that reaches `use`: the closest preceding assignment in the enclosing blocks,
+            provided no statement in between assigns the name conditionally (None otherwise)."""
+            cur: ast.AST = use
+            while True:
+                while not isinstance(cur, ast.stmt):
+                    cur = mod.parents[cur]
+                par = mod.parents.get(cur)
+                if par is None or isinstance(cur, (ast.FunctionDef, ast.AsyncFunctionDef)):
+                    return None
+                body = None
+                for fld in ('body', 'orelse', 'finalbody'):
+                    if cur in getattr(par, fld, []):
+                        body = getattr(par, fld)
+                if isinstance(par, (ast.For, ast.While)) and any(
+                        isinstance(x, ast.Name) and x.id == var and isinstance(x.ctx, ast.Store) for x in ast.walk(par)):
+                    return None         # a definition may arrive around the back edge
+                if body is None:
+                    return None
+                for st in reversed(body[:body.index(cur)]):
+                    if isinstance(st, ast.Assign) and len(st.targets) == 1 and isinstance(st.targets[0], ast.Name) \
+                            and st.targets[0].id == var:
+                        return st
+                    if any(isinstance(x, ast.Name) and x.id == var and isinstance(x.ctx, ast.Store) for x in ast.walk(st)):
+                        return None
+                cur = par
 
-        def add(v: ast.AST) -> bool:
+        def add(v: ast.AST, use: ast.AST, depth: int = 0) -> bool:
             if isinstance(v, ast.IfExp):
-                return add(v.body) and add(v.orelse)
+                return add(v.body, use, depth) and add(v.orelse, use, depth)
             val = self.folder.try_ev(mn, v, default=None)
             if isinstance(val, (str, Opaque)):
                 alts.append(val)
                 return True
+            if isinstance(v, ast.Name) and depth < 3:
+                d = reaching(use, v.id)
+                if d is not None:
+                    return add(d.value, d, depth + 1)
             return False
-        # the definition that reaches the call: the closest preceding assignment in the enclosing blocks, provided no
-        # statement in between assigns the name conditionally
-        cur: ast.AST = call
-        found = False
-        while not found:
-            while not isinstance(cur, ast.stmt):
-                cur = mod.parents[cur]
-            par = mod.parents.get(cur)
-            if par is None or isinstance(cur, (ast.FunctionDef, ast.AsyncFunctionDef)):
-                return None
-            body = None
-            for fld in ('body', 'orelse', 'finalbody'):
-                if cur in getattr(par, fld, []):
-                    body = getattr(par, fld)
-            if body is None or isinstance(par, (ast.For, ast.While)):
-                # handlers, loops: a definition may arrive around the back edge
-                if isinstance(par, (ast.For, ast.While)) and any(
-                        isinstance(x, ast.Name) and x.id == var and isinstance(x.ctx, ast.Store) for x in ast.walk(par)):
-                    return None
-                if body is None:
-                    return None
-            for st in reversed(body[:body.index(cur)]):
-                if isinstance(st, ast.Assign) and len(st.targets) == 1 and isinstance(st.targets[0], ast.Name) \
-                        and st.targets[0].id == var:
-                    if not add(st.value):
-                        return None
-                    found = True
-                    break
-                if any(isinstance(x, ast.Name) and x.id == var and isinstance(x.ctx, ast.Store) for x in ast.walk(st)):
-                    return None
-            cur = par
+        if not add(a0.right, call):
+            return None
         a, b = fmt.split('%s')
         return [(a, v, b) if isinstance(v, Opaque) else (a + v + b,) for v in alts]
